@@ -193,4 +193,409 @@ theorem handleFin_spec (p : Pool) (r : Finality.Res) (P : SlotState → Prop)
     have h2 := prune_spec _ P h1.1
     exact ⟨h2.1, h2.2.1.trans h1.2.1⟩
 
+/-! ### part 2: every pool operation preserves the pool invariant -/
+
+/-- per-slot predicate of `PoolMid`, as a single predicate on slot states -/
+def MidP (e : Epoch) (s : Nat) (cs : List Cert) (st : SlotState) : Prop :=
+  (st.slot = s → Mid e cs st) ∧ (st.slot ≠ s → SlotOk e st)
+
+theorem MidP.of_ok {e : Epoch} {s : Nat} {cs : List Cert} {st : SlotState} (h : SlotOk e st) : MidP e s cs st :=
+  ⟨fun _ => h.mid cs, fun _ => h⟩
+
+theorem MidP.nil_ok {e : Epoch} {s : Nat} {st : SlotState} (h : MidP e s [] st) : SlotOk e st := by
+  by_cases hs : st.slot = s
+  · exact (h.1 hs).ok
+  · exact h.2 hs
+
+theorem MidP.init (e : Epoch) (hpos : 0 < e.total) (s x : Nat) (cs : List Cert) : MidP e s cs { slot := x } :=
+  MidP.of_ok (SlotOk.init e x hpos)
+
+theorem SlotOk.of_coreEq {e : Epoch} {a b : SlotState} (h : CoreEq a b) (i : SlotOk e a) : SlotOk e b :=
+  ⟨⟨i.1.1.of_coreEq h, i.1.2.of_coreEq h⟩, i.2.of_coreEq h⟩
+
+theorem coreEq_slot {a b : SlotState} (h : CoreEq a b) : a.slot = b.slot :=
+  (congrArg SlotState.slot h.eq : a.core.slot = b.core.slot)
+
+theorem MidP.of_coreEq {e : Epoch} {s : Nat} {cs : List Cert} {a b : SlotState} (h : CoreEq a b) (m : MidP e s cs a) :
+    MidP e s cs b :=
+  ⟨fun hs => (m.1 ((coreEq_slot h).trans hs)).of_coreEq h, fun hs => (m.2 (fun e' => hs ((coreEq_slot h).symm.trans e'))).of_coreEq h⟩
+
+theorem putSlot_spec2 (p : Pool) (st : SlotState) (Q : SlotState → Prop)
+    (hoth : ∀ x ∈ p.slots, x.slot ≠ st.slot → Q x) (hst : Q st) :
+    AllSlots (p.putSlot st) Q ∧ (p.putSlot st).epoch = p.epoch ∧ (p.putSlot st).fin = p.fin := by
+  unfold Pool.putSlot
+  split
+  · refine ⟨?_, rfl, rfl⟩
+    intro x hx
+    simp only [List.mem_map] at hx
+    obtain ⟨y, hy, rfl⟩ := hx
+    split
+    · exact hst
+    · rename_i hne
+      exact hoth y hy (by simpa using hne)
+  · rename_i hany
+    refine ⟨?_, rfl, rfl⟩
+    intro x hx
+    rcases List.mem_append.mp hx with h | h
+    · apply hoth x h
+      intro he
+      apply hany
+      simp only [List.any_eq_true]; exact ⟨x, h, by simp [he]⟩
+    · simp at h; subst h; exact hst
+
+theorem notifyChildren_spec (p : Pool) (kids : List (Nat × Nat)) (acc : List Event) (P : SlotState → Prop)
+    (hall : AllSlots p P) (hnew : ∀ x, P { slot := x }) (hce : ∀ a b, CoreEq a b → P a → P b) :
+    AllSlots (p.notifyChildren kids acc).1 P ∧ (p.notifyChildren kids acc).1.epoch = p.epoch := by
+  induction kids generalizing p acc with
+  | nil => exact ⟨hall, rfl⟩
+  | cons k ks ih =>
+    obtain ⟨cs, ch⟩ := k
+    unfold Pool.notifyChildren
+    split
+    · exact ih p acc hall
+    · obtain ⟨h1, h2, h3, h4, _, _⟩ := slotState_spec p cs P hall (hnew cs)
+      dsimp only
+      split
+      · exact ⟨h1, h4⟩
+      · rename_i st' evs hn
+        have hce' := notifyParentCertified_core (p.slotState cs).1.epoch (p.slotState cs).2 ch st' evs hn
+        have hput := putSlot_spec (p.slotState cs).1 st' P h1 (hce _ _ hce' h2)
+        have := ih ((p.slotState cs).1.putSlot st') (acc ++ evs) hput.1
+        exact ⟨this.1, this.2.trans (hput.2.1.trans h4)⟩
+
+theorem notifyWaiting_spec (p : Pool) (b : Nat × Nat) (P : SlotState → Prop)
+    (hall : AllSlots p P) (hnew : ∀ x, P { slot := x }) (hce : ∀ a b, CoreEq a b → P a → P b) :
+    AllSlots (p.notifyWaiting b).1 P ∧ (p.notifyWaiting b).1.epoch = p.epoch := by
+  unfold Pool.notifyWaiting
+  exact notifyChildren_spec { p with waiting := p.waiting.filter (·.1 ≠ b) } _ [] P hall hnew hce
+
+/-- the tracker / notification part of `add_valid_cert`, after the certificate was stored -/
+theorem addValidCert_tail (p : Pool) (c : Cert) (P : SlotState → Prop)
+    (hnew : ∀ x, P { slot := x }) (hce : ∀ a b, CoreEq a b → P a → P b)
+    (hQ : ∀ x ∈ (p.slotState c.slot).1.slots, x.slot ≠ c.slot → P x)
+    (hst : P ((p.slotState c.slot).2.addCert c)) :
+    AllSlots (p.addValidCert c).1 P ∧ (p.addValidCert c).1.epoch = p.epoch := by
+  have hs := slotState_spec p c.slot (fun _ => True) (fun _ _ => trivial) trivial
+  have hslot : ((p.slotState c.slot).2.addCert c).slot = c.slot := by
+    rw [← (SameVotes.addCert _ c).slot]; exact hs.2.2.1
+  have hput := putSlot_spec2 (p.slotState c.slot).1 ((p.slotState c.slot).2.addCert c) P
+    (fun x hx hne => hQ x hx (by rw [hslot] at hne; exact hne)) hst
+  have hep : ((p.slotState c.slot).1.putSlot ((p.slotState c.slot).2.addCert c)).epoch = p.epoch :=
+    hput.2.1.trans hs.2.2.2.1
+  unfold Pool.addValidCert
+  dsimp only
+  cases hk : c.kind <;> dsimp only
+  · -- notar
+    have h1 := handleFin_spec _ (Finality.markNotarized ((p.slotState c.slot).1.putSlot ((p.slotState c.slot).2.addCert c)).fin (c.slot, c.hash)) P hput.1
+    simp only [show (CertKind.notar == CertKind.notar) = true from rfl, if_true]
+    have h2 := notifyWaiting_spec _ (c.slot, c.hash) P h1.1 hnew hce
+    have h3 := fun r => applyPr_spec _ r P h2.1
+    exact ⟨(h3 _).1, (h3 _).2.1.trans (h2.2.trans (h1.2.trans hep))⟩
+  · -- nf
+    simp only [show (CertKind.nf == CertKind.notar) = false from rfl, Bool.false_eq_true, if_false]
+    have h2 := notifyWaiting_spec _ (c.slot, c.hash) P hput.1 hnew hce
+    have h3 := fun r => applyPr_spec _ r P h2.1
+    exact ⟨(h3 _).1, (h3 _).2.1.trans (h2.2.trans hep)⟩
+  · -- skip
+    have h3 := applyPr_spec _ (ParentReady.markSkipped ((p.slotState c.slot).1.putSlot ((p.slotState c.slot).2.addCert c)).pr c.slot) P hput.1
+    exact ⟨h3.1, h3.2.1.trans hep⟩
+  · -- ff
+    have h1 := handleFin_spec _ (Finality.markFastFinalized ((p.slotState c.slot).1.putSlot ((p.slotState c.slot).2.addCert c)).fin (c.slot, c.hash)) P hput.1
+    have h2 := notifyWaiting_spec _ (c.slot, c.hash) P h1.1 hnew hce
+    exact ⟨h2.1, h2.2.trans (h1.2.trans hep)⟩
+  · -- final
+    have h1 := handleFin_spec _ (Finality.markFinalized ((p.slotState c.slot).1.putSlot ((p.slotState c.slot).2.addCert c)).fin c.slot) P hput.1
+    exact ⟨h1.1, h1.2.trans hep⟩
+
+theorem SlotOk.addCert {e : Epoch} {st : SlotState} {c : Cert} (h : SlotOk e st) (hc : CertOk e c) : SlotOk e (st.addCert c) :=
+  ⟨⟨InvV_addCert e st c h.1.1, InvT_addCert e st c h.1.2⟩, HeldOk_addCert e st c h.2 hc⟩
+
+/-- adding the next pending certificate `c` of slot `s` -/
+theorem addValidCert_mid (p : Pool) (s : Nat) (c : Cert) (cs : List Cert) (hpos : 0 < p.epoch.total)
+    (hall : AllSlots p (MidP p.epoch s (c :: cs))) (hc : CertOk p.epoch c) (hs : c.slot = s) :
+    AllSlots (p.addValidCert c).1 (MidP p.epoch s cs) ∧ (p.addValidCert c).1.epoch = p.epoch := by
+  have h0 := slotState_spec p c.slot (MidP p.epoch s (c :: cs)) hall (MidP.init p.epoch hpos s c.slot _)
+  apply addValidCert_tail p c (MidP p.epoch s cs) (fun x => MidP.init p.epoch hpos s x cs)
+    (fun a b h m => m.of_coreEq h)
+  · intro x hx hne
+    have := h0.1 x hx
+    exact ⟨fun he => absurd (he.trans hs.symm) hne, this.2⟩
+  · have hm := h0.2.1
+    have hsl : (p.slotState c.slot).2.slot = s := h0.2.2.1.trans hs
+    have hsl2 : ((p.slotState c.slot).2.addCert c).slot = s := by
+      rw [← (SameVotes.addCert _ c).slot]; exact hsl
+    exact ⟨fun _ => (hm.1 hsl).addCert hc, fun hne => absurd hsl2 hne⟩
+
+/-- adding a received (validated) certificate -/
+theorem addValidCert_ok (p : Pool) (c : Cert) (hok : PoolOk p) (hc : CertOk p.epoch c) : PoolOk (p.addValidCert c).1 := by
+  have hall : AllSlots p (SlotOk p.epoch) := hok.2
+  have h0 := slotState_spec p c.slot (SlotOk p.epoch) hall (SlotOk.init p.epoch c.slot hok.1)
+  have := addValidCert_tail p c (SlotOk p.epoch) (fun x => SlotOk.init p.epoch x hok.1) (fun a b h m => m.of_coreEq h)
+    (fun x hx _ => h0.1 x hx) (h0.2.1.addCert hc)
+  exact ⟨by rw [this.2]; exact hok.1, by rw [this.2]; exact this.1⟩
+
+theorem addValidCerts_mid (p : Pool) (s : Nat) (cs : List Cert) (acc : List Event) (hpos : 0 < p.epoch.total)
+    (hall : AllSlots p (MidP p.epoch s cs)) (hc : ∀ c ∈ cs, CertOk p.epoch c ∧ c.slot = s) :
+    AllSlots (p.addValidCerts cs acc).1 (MidP p.epoch s []) ∧ (p.addValidCerts cs acc).1.epoch = p.epoch := by
+  induction cs generalizing p acc with
+  | nil => exact ⟨hall, rfl⟩
+  | cons c cs ih =>
+    unfold Pool.addValidCerts
+    dsimp only
+    have h1 := addValidCert_mid p s c cs hpos hall (hc c (by simp)).1 (hc c (by simp)).2
+    have := ih (p.addValidCert c).1 (acc ++ (p.addValidCert c).2) (by rw [h1.2]; exact hpos)
+      (by rw [h1.2]; exact h1.1) (by rw [h1.2]; exact fun x hx => hc x (by simp [hx]))
+    rw [h1.2] at this
+    exact ⟨this.1, this.2⟩
+
+theorem poolOk_of_mid (p : Pool) (s : Nat) (e : Epoch) (he : p.epoch = e) (hpos : 0 < e.total)
+    (hall : AllSlots p (MidP e s [])) : PoolOk p :=
+  ⟨by rw [he]; exact hpos, fun st hm => by rw [he]; exact (hall st hm).nil_ok⟩
+
+/-- **`Pool::add_vote` preserves the pool invariant.** -/
+theorem addVote_ok (p : Pool) (v : Vote) (hok : PoolOk p) : PoolOk (p.addVote v).1 := by
+  unfold Pool.addVote
+  split
+  · exact hok
+  split
+  · exact hok
+  have h0 := slotState_spec p v.slot (SlotOk p.epoch) hok.2 (SlotOk.init p.epoch v.slot hok.1)
+  have hok1 : PoolOk (p.slotState v.slot).1 := ⟨by rw [h0.2.2.2.1]; exact hok.1, by rw [h0.2.2.2.1]; exact h0.1⟩
+  dsimp only
+  split
+  · exact hok1
+  · rename_i hsl
+    split
+    · exact hok1
+    · rename_i hig
+      have ha : Adm (p.slotState v.slot).2 v := ⟨hsl, by simpa using hig⟩
+      have hst := h0.2.1
+      have hce := addVote_core (p.slotState v.slot).1.epoch (p.slotState v.slot).2 v
+      have hep : (p.slotState v.slot).1.epoch = p.epoch := h0.2.2.2.1
+      rw [hep] at hce
+      -- the stored state with its pending certificates
+      have hmid : Mid p.epoch ((p.slotState v.slot).2.addVote p.epoch v).2.1 ((p.slotState v.slot).2.addVote p.epoch v).1 := by
+        rw [addVote_certs]
+        have hheld : HeldOk p.epoch ((p.slotState v.slot).2.stored p.epoch v) := by
+          intro c hc
+          apply hst.2 c
+          unfold SlotState.certs at hc ⊢
+          rw [stored_cNotar, stored_cFf, stored_cSkip, stored_cFin] at hc
+          have : ((p.slotState v.slot).2.stored p.epoch v).cNf = (p.slotState v.slot).2.cNf := by
+            unfold SlotState.stored; cases v.kind <;> rfl
+          rw [this] at hc; exact hc
+        exact (⟨stored_InvV p.epoch _ v hst.1.1 ha, hheld, pending_stored p.epoch _ v hst.1.2⟩ :
+          Mid p.epoch _ ((p.slotState v.slot).2.stored p.epoch v)).of_coreEq hce.symm
+      have hslot : ((p.slotState v.slot).2.addVote p.epoch v).1.slot = v.slot := by
+        rw [coreEq_slot hce, stored_slot]; exact h0.2.2.1
+      rw [hep]
+      have hput := putSlot_spec2 (p.slotState v.slot).1 ((p.slotState v.slot).2.addVote p.epoch v).1
+        (MidP p.epoch v.slot ((p.slotState v.slot).2.addVote p.epoch v).2.1)
+        (fun x hx _ => MidP.of_ok (h0.1 x hx))
+        ⟨fun _ => hmid, fun hne => absurd hslot hne⟩
+      have hcs : ∀ c ∈ ((p.slotState v.slot).2.addVote p.epoch v).2.1, CertOk p.epoch c ∧ c.slot = v.slot := by
+        intro c hc
+        rw [addVote_certs] at hc
+        have j := newCerts_justified p.epoch _ v (stored_InvV p.epoch _ v hst.1.1 ha) c hc
+        exact ⟨CertOk.of_justified j, by rw [j.1, stored_slot]; exact h0.2.2.1⟩
+      have hep2 : ((p.slotState v.slot).1.putSlot ((p.slotState v.slot).2.addVote p.epoch v).1).epoch = p.epoch :=
+        hput.2.1.trans hep
+      have := addValidCerts_mid _ v.slot _ [] (by rw [hep2]; exact hok.1) (by rw [hep2]; exact hput.1)
+        (by rw [hep2]; exact hcs)
+      rw [hep2] at this
+      exact poolOk_of_mid _ v.slot p.epoch this.2 hok.1 this.1
+
+/-- **`Pool::add_cert` preserves the pool invariant** (the certificate passed `ValidatedCert`). -/
+theorem addCert_ok (p : Pool) (c : Cert) (hok : PoolOk p) (hc : CertOk p.epoch c) : PoolOk (p.addCert c).1 := by
+  unfold Pool.addCert
+  split
+  · exact hok
+  have h0 := slotState_spec p c.slot (SlotOk p.epoch) hok.2 (SlotOk.init p.epoch c.slot hok.1)
+  have hok1 : PoolOk (p.slotState c.slot).1 := ⟨by rw [h0.2.2.2.1]; exact hok.1, by rw [h0.2.2.2.1]; exact h0.1⟩
+  dsimp only
+  split <;> split
+  all_goals first
+    | exact hok1
+    | exact addValidCert_ok _ c hok1 (by rw [h0.2.2.2.1]; exact hc)
+
+theorem addWaiting_spec (p : Pool) (par b : Nat × Nat) : (Pool.addWaiting p par b).slots = p.slots ∧ (Pool.addWaiting p par b).epoch = p.epoch := by
+  unfold Pool.addWaiting; split <;> exact ⟨rfl, rfl⟩
+
+theorem addBlockTail_ok (r : Pool) (b par : Nat × Nat) (e0 : List Event) (cert : Bool) (hok2 : PoolOk r) :
+    PoolOk (Pool.addBlockTail r b par e0 cert).1 := by
+  have waitOk : ∀ (x : Pool), PoolOk x → PoolOk (Pool.addWaiting x par b) := by
+    intro x hx
+    obtain ⟨w1, w2⟩ := addWaiting_spec x par b
+    exact ⟨by rw [w2]; exact hx.1, by rw [w1, w2]; exact hx.2⟩
+  unfold Pool.addBlockTail
+  split
+  · have k0 := slotState_spec r b.1 (SlotOk r.epoch) hok2.2 (SlotOk.init r.epoch b.1 hok2.1)
+    have hok3 : PoolOk (r.slotState b.1).1 := ⟨by rw [k0.2.2.2.1]; exact hok2.1, by rw [k0.2.2.2.1]; exact k0.1⟩
+    split
+    · exact hok3
+    · rename_i st' evs hn
+      have hce := notifyParentCertified_core (r.slotState b.1).1.epoch (r.slotState b.1).2 b.2 st' evs hn
+      have k1 := putSlot_spec (r.slotState b.1).1 st' (SlotOk r.epoch) k0.1 (k0.2.1.of_coreEq hce)
+      have hok4 : PoolOk ((r.slotState b.1).1.putSlot st') :=
+        ⟨by rw [k1.2.1, k0.2.2.2.1]; exact hok2.1, by rw [k1.2.1, k0.2.2.2.1]; exact k1.1⟩
+      split
+      · exact waitOk _ hok4
+      · exact hok4
+  · exact waitOk _ hok2
+
+/-- **`Pool::add_block` preserves the pool invariant.** -/
+theorem addBlock_ok (p : Pool) (b par : Nat × Nat) (hok : PoolOk p) : PoolOk (p.addBlock b par).1 := by
+  unfold Pool.addBlock
+  split
+  · exact hok
+  split
+  · exact hok
+  rename_i t ev _
+  have h1 := applyPr_spec { p with fin := t } (ParentReady.handleFinalization p.pr ev) (SlotOk p.epoch) hok.2
+  have h2 := prune_spec _ (SlotOk p.epoch) h1.1
+  dsimp only
+  have hep : (({ p with fin := t } : Pool).applyPr (ParentReady.handleFinalization p.pr ev)).1.prune.epoch = p.epoch :=
+    h2.2.1.trans h1.2.1
+  have hokq : PoolOk (({ p with fin := t } : Pool).applyPr (ParentReady.handleFinalization p.pr ev)).1.prune :=
+    ⟨by rw [hep]; exact hok.1, by rw [hep]; exact h2.1⟩
+  generalize (({ p with fin := t } : Pool).applyPr (ParentReady.handleFinalization p.pr ev)).1.prune = q at hokq hep
+  split
+  · exact hokq
+  · have g0 := slotState_spec q b.1 (SlotOk q.epoch) hokq.2 (SlotOk.init q.epoch b.1 hokq.1)
+    have hk : SlotOk q.epoch ((q.slotState b.1).2.notifyParentKnown b.2) :=
+      slotStep_ok q.epoch (q.slotState b.1).2 (.parentKnown b.2) g0.2.1 (fun c h => by cases h)
+    have g1 := putSlot_spec (q.slotState b.1).1 ((q.slotState b.1).2.notifyParentKnown b.2) (SlotOk q.epoch) g0.1 hk
+    have hep1 : ((q.slotState b.1).1.putSlot ((q.slotState b.1).2.notifyParentKnown b.2)).epoch = q.epoch :=
+      g1.2.1.trans g0.2.2.2.1
+    have hok2 : PoolOk ((q.slotState b.1).1.putSlot ((q.slotState b.1).2.notifyParentKnown b.2)) :=
+      ⟨by rw [hep1]; exact hokq.1, by rw [hep1]; exact g1.1⟩
+    generalize ((q.slotState b.1).1.putSlot ((q.slotState b.1).2.notifyParentKnown b.2)) = r at hok2
+    exact addBlockTail_ok r b par _ _ hok2
+
+/-- the empty pool satisfies the invariant -/
+theorem PoolOk.init (e : Epoch) (hpos : 0 < e.total) : PoolOk { epoch := e } :=
+  ⟨hpos, fun st hm => by simp at hm⟩
+
+/-! ### every reachable pool -/
+
+inductive PoolOp where
+  | vote (v : Vote)
+  | cert (c : Cert)
+  | block (b par : Nat × Nat)
+deriving Repr
+
+def poolStep (p : Pool) : PoolOp → Pool × List Event
+  | .vote v => ((p.addVote v).1, (p.addVote v).2.2)
+  | .cert c => ((p.addCert c).1, (p.addCert c).2.2)
+  | .block b par => p.addBlock b par
+
+def poolRun (p : Pool) : List PoolOp → Pool × List Event
+  | [] => (p, [])
+  | op :: ops => ((poolRun (poolStep p op).1 ops).1, (poolStep p op).2 ++ (poolRun (poolStep p op).1 ops).2)
+
+theorem poolStep_epoch_ok (p : Pool) (op : PoolOp) (hok : PoolOk p) (hrecv : ∀ c, op = .cert c → CertOk p.epoch c) :
+    PoolOk (poolStep p op).1 := by
+  cases op with
+  | vote v => exact addVote_ok p v hok
+  | cert c => exact addCert_ok p c hok (hrecv c rfl)
+  | block b par => exact addBlock_ok p b par hok
+
+theorem addVote_epoch (p : Pool) (v : Vote) (hok : PoolOk p) : (p.addVote v).1.epoch = p.epoch := by
+  unfold Pool.addVote
+  split
+  · rfl
+  split
+  · rfl
+  have h0 := slotState_spec p v.slot (fun _ => True) (fun _ _ => trivial) trivial
+  dsimp only
+  split
+  · exact h0.2.2.2.1
+  · split
+    · exact h0.2.2.2.1
+    · -- epoch is never touched: every helper returns `{ p with ... }` of other fields
+      have key : ∀ (cs : List Cert) (q : Pool) (acc : List Event), (q.addValidCerts cs acc).1.epoch = q.epoch := by
+        intro cs
+        induction cs with
+        | nil => intro q acc; rfl
+        | cons c cs ih =>
+          intro q acc
+          unfold Pool.addValidCerts
+          dsimp only
+          rw [ih]
+          have hs := slotState_spec q c.slot (fun _ => True) (fun _ _ => trivial) trivial
+          exact (addValidCert_tail q c (fun _ => True) (fun _ => trivial) (fun _ _ _ _ => trivial)
+            (fun _ _ _ => trivial) trivial).2
+      rw [key]
+      exact (putSlot_spec _ _ (fun _ => True) (fun _ _ => trivial) trivial).2.1.trans h0.2.2.2.1
+
+theorem addValidCert_epoch (q : Pool) (c : Cert) : (q.addValidCert c).1.epoch = q.epoch :=
+  (addValidCert_tail q c (fun _ => True) (fun _ => trivial) (fun _ _ _ _ => trivial) (fun _ _ _ => trivial) trivial).2
+
+theorem addCert_epoch (p : Pool) (c : Cert) : (p.addCert c).1.epoch = p.epoch := by
+  unfold Pool.addCert
+  split
+  · rfl
+  have h0 := slotState_spec p c.slot (fun _ => True) (fun _ _ => trivial) trivial
+  dsimp only
+  split <;> split
+  all_goals first
+    | exact h0.2.2.2.1
+    | exact (addValidCert_epoch _ c).trans h0.2.2.2.1
+
+theorem addBlockTail_epoch (r : Pool) (b par : Nat × Nat) (e0 : List Event) (cert : Bool) :
+    (Pool.addBlockTail r b par e0 cert).1.epoch = r.epoch := by
+  unfold Pool.addBlockTail
+  have k0 := slotState_spec r b.1 (fun _ => True) (fun _ _ => trivial) trivial
+  split
+  · split
+    · exact k0.2.2.2.1
+    · split
+      · rw [(addWaiting_spec _ par b).2, (putSlot_spec _ _ (fun _ => True) (fun _ _ => trivial) trivial).2.1]
+        exact k0.2.2.2.1
+      · rw [(putSlot_spec _ _ (fun _ => True) (fun _ _ => trivial) trivial).2.1]
+        exact k0.2.2.2.1
+  · rw [(addWaiting_spec _ par b).2]
+
+theorem addBlock_epoch (p : Pool) (b par : Nat × Nat) : (p.addBlock b par).1.epoch = p.epoch := by
+  unfold Pool.addBlock
+  split
+  · rfl
+  split
+  · rfl
+  rename_i t ev _
+  have h1 := applyPr_spec { p with fin := t } (ParentReady.handleFinalization p.pr ev) (fun _ => True) (fun _ _ => trivial)
+  have h2 := prune_spec (({ p with fin := t } : Pool).applyPr (ParentReady.handleFinalization p.pr ev)).1 (fun _ => True) (fun _ _ => trivial)
+  have hep : (({ p with fin := t } : Pool).applyPr (ParentReady.handleFinalization p.pr ev)).1.prune.epoch = p.epoch :=
+    h2.2.1.trans h1.2.1
+  dsimp only
+  generalize (({ p with fin := t } : Pool).applyPr (ParentReady.handleFinalization p.pr ev)).1.prune = q at hep
+  split
+  · exact hep
+  · have g0 := slotState_spec q b.1 (fun _ => True) (fun _ _ => trivial) trivial
+    have g1 := putSlot_spec (q.slotState b.1).1 ((q.slotState b.1).2.notifyParentKnown b.2) (fun _ => True) (fun _ _ => trivial) trivial
+    have hep1 : ((q.slotState b.1).1.putSlot ((q.slotState b.1).2.notifyParentKnown b.2)).epoch = p.epoch :=
+      g1.2.1.trans (g0.2.2.2.1.trans hep)
+    generalize ((q.slotState b.1).1.putSlot ((q.slotState b.1).2.notifyParentKnown b.2)) = r at hep1
+    exact (addBlockTail_epoch r b par _ _).trans hep1
+
+theorem poolStep_epoch (p : Pool) (op : PoolOp) (hok : PoolOk p) : (poolStep p op).1.epoch = p.epoch := by
+  cases op with
+  | vote v => exact addVote_epoch p v hok
+  | cert c => exact addCert_epoch p c
+  | block b par => exact addBlock_epoch p b par
+
+/-- **Every reachable pool satisfies the pool invariant**: from the empty pool, after any sequence of
+    votes (validated), certificates (validated: `CertOk`) and block registrations. -/
+theorem poolRun_ok (ops : List PoolOp) (p : Pool) (hok : PoolOk p)
+    (hrecv : ∀ c, PoolOp.cert c ∈ ops → CertOk p.epoch c) :
+    PoolOk (poolRun p ops).1 ∧ (poolRun p ops).1.epoch = p.epoch := by
+  induction ops generalizing p with
+  | nil => exact ⟨hok, rfl⟩
+  | cons op ops ih =>
+    have h1 := poolStep_epoch_ok p op hok (fun c hc => hrecv c (by simp [hc]))
+    have h2 := poolStep_epoch p op hok
+    have := ih (poolStep p op).1 h1 (by rw [h2]; exact fun c hc => hrecv c (by simp [hc]))
+    simp only [poolRun]
+    exact ⟨this.1, this.2.trans h2⟩
+
 end AgModel.Pool
